@@ -1,5 +1,6 @@
 import MdsVerif.Proofs.ShellFsm
 import MdsVerif.Proofs.ShellScanner
+import MdsVerif.Proofs.ShellRest
 /-!
 # C16 — `shell.Split` / `Scanner` tokenize by POSIX quoting rules, independent of chunking
 
@@ -80,9 +81,11 @@ theorem complete_mid (s : Scanner) (h : s.next.2 = .ret true) (he : s.next.1.err
 
 example : (Scanner.new [39, 97] .eof).split.1.complete = false := by decide
 
-/-- **`Rest` is exact**: at every point of every history of `Next/Split/Each/Rest` calls on a new
-    scanner, the reader returned by `Rest` delivers exactly the bytes not consumed so far —
-    `consumed ++ rest = input` — and then ends the way the original reader ends. -/
+/-- **`Rest` returns a suffix of the input**: at every point of every history of
+    `Next/Split/Each/Rest` calls on a new scanner, the reader returned by `Rest` delivers a suffix
+    of the input — `consumed ++ rest = input` for some `consumed` — and then ends the way the
+    original reader ends.  WHICH suffix is the content of `rest_tokens` and `rest_exact_position`
+    below (the input minus the shortest prefix that ends the tokens returned so far). -/
 theorem rest_exact (input : Bytes) (tail : Tail) (ops : List Op) (hno : ∀ op ∈ ops, Op.noReset op = true) :
     ∃ consumed, consumed ++ (((Scanner.new input tail).runOps ops).1.rest).2.1 = input ∧
       (((Scanner.new input tail).runOps ops).1.rest).2.2 = tail := by
@@ -110,11 +113,47 @@ theorem rest_tokens (input : Bytes) (tail : Tail) (k : Nat) (s : Scanner) (toks 
 example : (nexts 2 (Scanner.new [97, 32, 39, 98, 32, 99, 39, 10, 100] .eof)).map (fun p => (p.1.rem, p.2)) =
     some ([100], [[97], [98, 32, 99]]) := by decide
 
-/-- **Chunking independence**: the scanner reads its input through `ReadByte` only
-    (`Gen.ShellTable.bufUses`, checked by the extractor), and successive `ReadByte` calls on a
-    buffered reader deliver the concatenation of the fragments the underlying reader returns — so
-    two readers that fragment the same bytes differently (including empty reads) feed the scanner
-    identically, and every history of calls produces the same outputs. -/
+/-- **`Rest` is exact — the position**: after `k` calls of `Next` that each returned a token before
+    the end of the input, the bytes consumed are exactly `Spec.Posix.consumedPrefix toks input`: the
+    SHORTEST prefix of the input whose reference tokenisation yields exactly the `k` tokens, all
+    complete, with the last one terminated (`endsTokens`: a further ordinary byte would start a new
+    field) — computed from the reference tokenizer alone, and it is what the driver's verdict for
+    `Rest` compares the implementation's bytes with.  `Rest` hands back the input minus exactly that
+    prefix: not a byte more (nothing of a later token, no blank after the separator) and not a byte
+    less.  With `k = 0` the prefix is empty (`Rest` on a new scanner returns the whole input). -/
+theorem rest_exact_position (input : Bytes) (tail : Tail) (k : Nat) (s : Scanner) (toks : List Bytes)
+    (h : nexts k (Scanner.new input tail) = some (s, toks)) :
+    ∃ consumed, consumedPrefix toks input = some consumed ∧ consumed ++ s.rest.2.1 = input ∧
+      s.rest.2.2 = tail ∧ endsTokens toks consumed = true ∧
+      ∀ p q, p ++ q = consumed → q ≠ [] → endsTokens toks p = false := by
+  obtain ⟨c, h1, h2, h3⟩ := MdsVerif.Proofs.ShellRest.rest_after_consumedPrefix input tail k s toks h
+  obtain ⟨c', g1, g2, g3, g4⟩ := MdsVerif.Proofs.ShellRest.consumed_shortest input tail k s toks h
+  have : c = c' := List.append_cancel_right (h2.trans g1.symm)
+  subst this
+  exact ⟨c, h1, h2, h3, g3, g4⟩
+
+/-- non-vacuity: two tokens of `a  'b c'⏎  d`: consumed `a  'b c'⏎` (8 bytes: up to and including the
+    newline that ended the second token, not the blanks after it), `Rest` returns `  d`; the prefix
+    without the newline and the prefix with one more blank do not qualify as shortest -/
+example :
+    (nexts 2 (Scanner.new [97, 32, 32, 39, 98, 32, 99, 39, 10, 32, 32, 100] .eof)).map
+      (fun p => (p.1.rest.2.1, p.2)) = some ([32, 32, 100], [[97], [98, 32, 99]]) ∧
+    consumedPrefix [[97], [98, 32, 99]] [97, 32, 32, 39, 98, 32, 99, 39, 10, 32, 32, 100] =
+      some [97, 32, 32, 39, 98, 32, 99, 39, 10] ∧
+    endsTokens [[97], [98, 32, 99]] [97, 32, 32, 39, 98, 32, 99, 39] = false ∧
+    endsTokens [[97], [98, 32, 99]] [97, 32, 32, 39, 98, 32, 99, 39, 10, 32] = true ∧
+    consumedPrefix [[97]] [97] = none := by decide
+
+/-- **Chunking independence — what is and is not proved.**  This is a congruence over an ABSTRACT
+    reader (`Model.Shell.Reader`: a buffer plus a list of fragments, `readByte` taking the next byte
+    of their concatenation): the model scanner is a function of the byte sequence its reader
+    delivers, so two such readers that fragment the same bytes differently (including empty reads)
+    give identical outputs for every call history.  It is NOT a statement about `bufio.Reader`.
+    That the Go `Scanner` sees its input as that byte sequence rests on: the extractor fact
+    `readByte_only` (the only methods called on the `bufio.Reader` are `ReadByte` and `Reset`,
+    re-read from `shell.go` on every run), trust in `bufio.Reader.ReadByte`, and the stream
+    `C16.scanner`, which runs every short input under every cut set (and random cut sets, empty
+    reads, failing readers beyond) against the model fed the concatenation. -/
 theorem chunking_independent (r₁ r₂ : Reader)
     (h : r₁.buf ++ r₁.chunks.flatten = r₂.buf ++ r₂.chunks.flatten) (tail : Tail) (ops : List Op) :
     (Scanner.new r₁.drain tail).runOps ops = (Scanner.new r₂.drain tail).runOps ops := by
